@@ -233,7 +233,7 @@ theorem frontGuard_of_cg (lv : Nat) (p : Program) (h : CgProg lv p) : FrontGuard
 
 /-! ### the graph of the program -/
 
-theorem graph_fold (fuel : Nat) (ms : List Src.Macro) (env : Src.Env) (fell : Nat) (Z : Nat) : ∀ (bodies : List Stmts),
+theorem graph_fold (fuel : Nat) (ms : List Src.Macro) (env : Src.Env) (fell : Nat) (Z : Nat → Prop) : ∀ (bodies : List Stmts),
     (∀ body ∈ bodies, ∀ k b, Grow Z b (Src.trStmts fuel ms env (toSrcStmts body) k b).1) → ∀ (acc : Src.B × List (Option Nat)),
     Grow Z acc.1 ((bodies.map fun b => (⟨some (toSrcStmts b)⟩ : Src.Routine)).foldl (graphStep fuel ms env fell) acc).1 ∧
     (∀ j, j < acc.2.length →
@@ -276,7 +276,7 @@ theorem graph_fold (fuel : Nat) (ms : List Src.Macro) (env : Src.Env) (fell : Na
         simp; omega
 
 /-- a node that changed while the routines were translated was changed last by one of them -/
-theorem graph_changer (fuel : Nat) (ms : List Src.Macro) (env : Src.Env) (fell : Nat) (Z : Nat) : ∀ (bodies : List Stmts),
+theorem graph_changer (fuel : Nat) (ms : List Src.Macro) (env : Src.Env) (fell : Nat) (Z : Nat → Prop) : ∀ (bodies : List Stmts),
     (∀ body ∈ bodies, ∀ k b, Grow Z b (Src.trStmts fuel ms env (toSrcStmts body) k b).1) → ∀ (acc : Src.B × List (Option Nat)) (i : Nat),
     i < (tbl acc.1).length →
     (tbl ((bodies.map fun b => (⟨some (toSrcStmts b)⟩ : Src.Routine)).foldl (graphStep fuel ms env fell) acc).1)[i]? ≠ (tbl acc.1)[i]? →
